@@ -341,6 +341,10 @@ func condOnSelect(cond ssa.Value, binds string) (bool, bool) {
 		base = u.X
 	}
 	if call, ok := base.(*ssa.Call); ok {
+		// harness cut switches are off in the code as it ships: the wrapper delegates to the real function
+		if f := call.Call.StaticCallee(); f != nil && strings.HasSuffix(f.String(), "/zzverifrt.CutActive") {
+			return false != neg, true
+		}
 		if v, ok := lookupBind(binds, fmt.Sprintf("c%d", call.Pos())); ok {
 			return (v == 1) != neg, true
 		}
@@ -460,6 +464,12 @@ func (b *skBuilder) expand(key string) {
 					top.ret = 0
 					if constant.BoolVal(c.Value) {
 						top.ret = 1
+					}
+				}
+				// a wrapper handing on the constant result of a skeleton callee
+				if call, ok := x.Results[0].(*ssa.Call); ok {
+					if v, ok := lookupBind(top.binds, fmt.Sprintf("c%d", call.Pos())); ok {
+						top.ret = v
 					}
 				}
 			}
